@@ -194,8 +194,8 @@ Fixpoint mu_walk (snap : option (nat * list (nat * option Z))) (prev : proj) (st
 
 (* With a pull collector (StdOut, File, ...) "the reported metrics contain no objective value" presupposes a report: the trial
    controller waits (requeues) while the DB holds nothing for the trial, and reports MetricsUnavailable only when the DB held an
-   entry without objective value when the reconcile began.  (For the model this follows from plan_trial_main and the
-   permanence of DB entries without teardown; it is a monitored clause, not covered by C06_metrics_unavailable_justified.) *)
+   entry without objective value when the reconcile began.  (Proved for the model's runs without teardown:
+   C06_metrics_unavailable_needs_report, Proofs/WorldMuPull.v.) *)
 Fixpoint mu_pull_walk (snap : option (nat * list (nat * option Z))) (prev : proj) (steps : list (action * proj)) : bool :=
   match steps with
   | [] => true
